@@ -160,10 +160,12 @@ func c17Run(c c17Case) (sig, msg string, nontrivial bool) {
 }
 
 type c17Batch struct {
-	Wallets int `json:"wallets"`
-	Rounds  int `json:"rounds"`
-	Par     int `json:"par"`
-	Procs   int `json:"gomaxprocs"`
+	Wallets int  `json:"wallets"`
+	Rounds  int  `json:"rounds"`
+	Par     int  `json:"par"`
+	Procs   int  `json:"gomaxprocs"`
+	Dup     int  `json:"dup"`    // every third transaction of a round is saved by 1+Dup goroutines at once
+	Resave  bool `json:"resave"` // every removal races with a re-save of the same transaction
 }
 
 // c17Concurrent: rounds of parallel saves (distinct transactions on shared addresses), removals of earlier ones and reads.
@@ -177,6 +179,7 @@ func c17Concurrent(c c17Batch) (sig, msg string) {
 	defer runtime.GOMAXPROCS(old)
 	ks := c17Keys(c.Wallets)
 	model := map[ref.Hash]transaction.Transaction{}
+	maybe := map[ref.Hash]transaction.Transaction{} // removal raced with a re-save: either outcome is a legal serialisation
 	var prev []transaction.Transaction
 	ctr := 0
 	for r := 0; r < c.Rounds; r++ {
@@ -189,16 +192,22 @@ func c17Concurrent(c c17Batch) (sig, msg string) {
 			ctr++
 			tx := ref.MakeTx(fmt.Sprintf("c17c %d", ctr), spice.Melange{}, []byte{byte(ctr), byte(ctr >> 8)}, ks[(g+1)%c.Wallets].Addr, ks[g%2], c17Epoch.Add(time.Duration(ctr)*time.Millisecond))
 			cur = append(cur, tx)
-			wg.Add(1)
-			go func(tx transaction.Transaction) {
-				defer wg.Done()
-				<-start
-				if err := h.SaveAwaitedTransaction(&tx); err != nil {
-					mu.Lock()
-					errs = append(errs, "save: "+err.Error())
-					mu.Unlock()
-				}
-			}(tx)
+			copies := 1
+			if g%3 == 0 {
+				copies += c.Dup // the same transaction saved by several callers at once: one of them wins, it is listed once
+			}
+			for k := 0; k < copies; k++ {
+				wg.Add(1)
+				go func(tx transaction.Transaction, first bool) {
+					defer wg.Done()
+					<-start
+					if err := h.SaveAwaitedTransaction(&tx); err != nil && first && copies == 1 {
+						mu.Lock()
+						errs = append(errs, "save: "+err.Error())
+						mu.Unlock()
+					}
+				}(tx, k == 0)
+			}
 		}
 		for i, tx := range prev {
 			if i%2 == 0 {
@@ -215,6 +224,15 @@ func c17Concurrent(c c17Batch) (sig, msg string) {
 				}
 			}(tx)
 			delete(model, tx.Hash)
+			if c.Resave {
+				maybe[tx.Hash] = tx
+				wg.Add(1)
+				go func(tx transaction.Transaction) {
+					defer wg.Done()
+					<-start
+					h.SaveAwaitedTransaction(&tx)
+				}(tx)
+			}
 		}
 		for g := 0; g < 2; g++ {
 			wg.Add(1)
@@ -245,6 +263,19 @@ func c17Concurrent(c c17Batch) (sig, msg string) {
 				}
 			}
 			for hh := range got {
+				if t, ok := maybe[hh]; ok && (t.IssuerAddress == k.Addr || t.ReceiverAddress == k.Addr) {
+					// listed for one side means listed for the other side too
+					other := t.IssuerAddress
+					if other == k.Addr {
+						other = t.ReceiverAddress
+					}
+					if og, oerr := c17Listing(h, other); oerr == nil {
+						if _, both := og[hh]; !both {
+							return "concurrent-listed-for-one-side-only", fmt.Sprintf("round %d: after a removal raced with a re-save, transaction %x is listed for wallet %d but not for its counterparty", r, hh[:4], wi)
+						}
+					}
+					continue
+				}
 				if t, ok := model[hh]; !ok || (t.IssuerAddress != k.Addr && t.ReceiverAddress != k.Addr) {
 					invented = append(invented, fmt.Sprintf("%x", hh[:4]))
 				}
@@ -262,7 +293,7 @@ func c17Concurrent(c c17Batch) (sig, msg string) {
 }
 
 func TestC17(t *testing.T) {
-	st := newStats(t, "C17", "sequential: rapid-generated save/resave/remove/read sequences over 2-5 addresses on a fresh cache, listings of every address compared with a map model after every step; concurrent: rounds of 4-32 parallel saves of distinct transactions + removals of earlier ones + reads on shared addresses with varied GOMAXPROCS, listings compared at quiescence; non-trivial = sequence has a successful remove after a save (sequential) / every concurrent batch (overlapping ops on one address by construction); distinct by op-sequence / batch-shape fingerprint")
+	st := newStats(t, "C17", "sequential: rapid-generated save/resave/remove/read sequences over 2-5 addresses on a fresh cache, listings of every address compared with a map model after every step; concurrent: rounds of 4-32 parallel saves of distinct transactions (every third saved by 2-8 callers at once) + removals of earlier ones (optionally racing with a re-save of the same transaction) + reads on shared addresses with varied GOMAXPROCS, listings compared at quiescence: nothing lost, nothing invented, nothing listed twice, raced removals listed for both sides or for neither; non-trivial = sequence has a successful remove after a save (sequential) / every concurrent batch (overlapping ops on one address by construction); distinct by op-sequence / batch-shape fingerprint")
 	t.Run("sequential", func(t *testing.T) {
 		rapid.Check(t, func(rt *rapid.T) {
 			if pastSoftDeadline(st) {
@@ -310,7 +341,7 @@ func TestC17(t *testing.T) {
 		n := scale(40, 600)
 		failed := false
 		for i := 0; i < n; i++ {
-			c := c17Batch{Wallets: 2 + (i+shard())%3, Rounds: 6, Par: []int{4, 8, 16, 32}[(i/3)%4], Procs: []int{2, 4, 8, 16}[(i+shard())%4]}
+			c := c17Batch{Wallets: 2 + (i+shard())%3, Rounds: 6, Par: []int{4, 8, 16, 32}[(i/3)%4], Procs: []int{2, 4, 8, 16}[(i+shard())%4], Dup: []int{0, 1, 3, 7}[(i/2)%4], Resave: i%4 == 1}
 			sig, msg := c17Concurrent(c)
 			st.eval(1)
 			st.nontrivial(fp64("conc", c.Wallets, c.Par, c.Procs, i, shard()))
